@@ -562,6 +562,33 @@ def check(ctx):
         ok = e.idx > proc_last
         bb = e.data["bound"] or {}
         dest, traj = bb.get("file_path"), bb.get("traj")
+        # (name, trajectory) pairs collected in a list beforehand and looped
+        # over: the loop element is read through to the pair it stands for
+        inst = _pair_instances(dest, traj) if dest is not None and \
+            traj is not None else None
+        if inst:
+            for d_, t_ in inst:
+                st_ = [x for x in d_.walk()
+                       if is_call_to(x, "evo.main_traj.to_filestem")]
+                okp = False
+                if len(st_) == 1 and st_[0].args[1]:
+                    key = st_[0].args[1][0]
+                    if t_.op == "sub" and key.op == "sub" and \
+                            t_.args[0] is key.args[0] and \
+                            tm.is_const(key.args[1], 0) and \
+                            tm.is_const(t_.args[1], 1):
+                        okp = True
+                    if key is A("ref") and any(x is ref_traj
+                                               for x in t_.walk()):
+                        okp = True
+                ctx.ob("C15.6", e, ok and okp,
+                       "export after all processing, trajectory under its "
+                       "own name (pairs collected beforehand)"
+                       if ok and okp else
+                       f"export at {e.where}: file stem {fmt(d_)[:80]} does "
+                       f"not belong to the written trajectory "
+                       f"{fmt(t_)[:60]}", key="C15.6:export")
+            continue
         stem = [x for x in (dest.walk() if dest is not None else [])
                 if is_call_to(x, "evo.main_traj.to_filestem")]
         ok2 = False
@@ -596,6 +623,57 @@ def check(ctx):
                + ("runs before processing finished" if not ok else
                   f"file stem {fmt(dest)} does not belong to the written "
                   f"trajectory {fmt(traj)}"), key="C15.6:export")
+
+
+def _pair_instances(dest: T, traj: T):
+    """[(dest, traj)] with a loop element over a list of pairs — built by a
+    comprehension, possibly with further pairs appended — replaced by each
+    kind of pair the list holds; None if there is no such element"""
+    els = [x for x in list(dest.walk()) + list(traj.walk())
+           if x.op == "elem"]
+    cands = []
+    for x in els:
+        L = Interp.unname(x.args[0])
+        if L.op in ("comp", "mut", "ite") and not any(x is c for c in cands):
+            cands.append(x)
+    def go(c: T, depth=0):
+        c = Interp.unname(c)
+        if depth > 8:
+            return
+        if c.op == "ite":
+            go(c.args[1], depth + 1)
+            go(c.args[2], depth + 1)
+        elif c.op == "mut" and c.args[1] == "append" and len(c.args[2]) == 1:
+            go(c.args[0], depth + 1)
+            p_ = Interp.unname(c.args[2][0])
+            if p_.op == "tuple" and not any(p_ is k for k in kinds):
+                kinds.append(p_)
+        elif c.op == "comp" and c.args[0] == "list" and \
+                len(c.args[2]) == 1 and not c.args[3] and \
+                Interp.unname(c.args[1]).op == "tuple":
+            if not any(c.args[1] is k for k in kinds):
+                kinds.append(Interp.unname(c.args[1]))
+    found = []
+    for x in cands:
+        kinds = []
+        go(x.args[0])
+        if kinds:
+            found.append((x, kinds))
+    # (the outermost such element: inner ones occur inside its pairs)
+    found = [(x, k) for x, k in found if not any(
+        x is not y and any(z is x for z in y.args[0].walk())
+        for y, _ in found)]
+    if len(found) != 1:
+        return None
+    el, kinds = found[0]
+
+    def subst(t: T, pair: T) -> T:
+        t = t.map(lambda x: pair if x is el else None)
+        return t.map(lambda x: x.args[0].args[tm.const_val(x.args[1])] if (
+            x.op == "sub" and x.args[0].op == "tuple" and
+            tm.is_const(x.args[1]) and type(tm.const_val(x.args[1])) is int
+            and 0 <= tm.const_val(x.args[1]) < len(x.args[0].args)) else None)
+    return [(subst(dest, p_), subst(traj, p_)) for p_ in kinds]
 
 
 def _appended_pairs(coll: T):
